@@ -43,11 +43,12 @@ func runC14(p *core.Prog, r *core.Report) {
 	// ---- R1
 	r1 := r.Rule("C14.R1", "every component-mutating call in package shard is dominated by a writable-mode test of the shard's own mode (lifecycle functions tabled)", 15)
 	g, d := shardModeGuards()
-	for _, fn := range p.FuncsIn("pkg/local_object_storage/shard") {
+	shardFns := p.FuncsIn("pkg/local_object_storage/shard")
+	for _, fn := range shardFns {
 		if _, ok := shardLifecycle[core.FuncName(core.Outer(fn))]; ok {
 			continue
 		}
-		core.CheckEffectsFn(p, r1, fn, core.EffectRule{Guards: g, Derived: d, Effect: func(p *core.Prog, in ssa.Instruction) (string, bool) {
+		core.CheckEffectsFn(p, r1, fn, core.EffectRule{Guards: g, Derived: d, LiftDepth: 3, CallerScope: shardFns, Effect: func(p *core.Prog, in ssa.Instruction) (string, bool) {
 			if c, ok := in.(ssa.CallInstruction); ok {
 				return shardMutatorCall(p, mbMut, c)
 			}
